@@ -31,6 +31,7 @@ type c10Expect struct {
 	Kind   string // bool int num string enum list struct union const … (+ "ref." prefix, "+nullable")
 	Want   JV
 	Flags  string
+	Ty     *Src // declared type of the member (nil for configured defaults on unknown members)
 }
 
 func c10Kind(d *Defs, f Field) string {
@@ -147,21 +148,21 @@ func c10Expectations(d *Defs, t c10Term, format string) []c10Expect {
 			}
 			if cfg, ok := t.Config[obj+"."+p]; ok {
 				v := mustJV(cfg)
-				out = append(out, c10Expect{obj, p, "config." + c10JSONKind(v), v, flags})
+				out = append(out, c10Expect{obj, p, "config." + c10JSONKind(v), v, flags, f.Ty})
 				continue
 			}
 			if cv, ck, ok := c10ConstDisj(f.Ty); ok && t.CDD && !f.Nullable {
 				// OpenAPI 3.0 spells a constant string as a pattern; other constants are enums there
 				if format != "openapi" || (cv.K == 's' && regexSafeConst(cv.S)) {
-					out = append(out, c10Expect{obj, p, "constdisj." + ck, cv, flags})
+					out = append(out, c10Expect{obj, p, "constdisj." + ck, cv, flags, f.Ty})
 				}
 				continue
 			}
 			switch {
 			case f.Ty.Kind == SConst:
-				out = append(out, c10Expect{obj, p, "const", f.Ty.Const, flags})
+				out = append(out, c10Expect{obj, p, "const", f.Ty.Const, flags, f.Ty})
 			case f.Default != nil:
-				out = append(out, c10Expect{obj, p, c10Kind(d, f), *f.Default, flags})
+				out = append(out, c10Expect{obj, p, c10Kind(d, f), *f.Default, flags, f.Ty})
 			case f.Ty.Kind == SStruct && f.Required && !f.Nullable:
 				// inline struct without default: its members show through the parent's constructor
 				walk(obj, p+".", f.Ty, depth+1)
@@ -399,6 +400,63 @@ func c10SameType(a, b JV) bool {
 		}
 	}
 	return true
+}
+
+var c10Ident = regexp.MustCompile(`^[A-Za-z_][A-Za-z0-9_]*$`)
+
+// c10Via names, for a struct default that is not held, the MECHANISM class of every overridden
+// member that went wrong, from the source term only: how the member is named and typed in the
+// struct the default belongs to (" via=a,b" or "" for defaults that are not structs).
+func c10Via(d *Defs, e c10Expect, reply string) string {
+	if e.Want.K != 'o' || e.Ty == nil {
+		return ""
+	}
+	st := d.resolve(e.Ty)
+	if st == nil || st.Kind != SStruct {
+		return " via=not-a-struct"
+	}
+	var got JV
+	if strings.HasPrefix(reply, "ok ") {
+		if v, err := parseJV([]byte(reply[3:])); err == nil {
+			got, _ = c10At(v, e.Path)
+		}
+	}
+	tags := map[string]int{}
+	for _, m := range e.Want.O {
+		if g, ok := got.get(m.K); got.K == 'o' && ok && c10Holds(m.V, g) {
+			continue
+		}
+		var mt *Src
+		for _, f := range st.Fields {
+			if f.Name == m.K {
+				mt = f.Ty
+			}
+		}
+		tag := "plain-member"
+		switch rt := d.resolve(mt); {
+		case mt == nil:
+			tag = "unknown-member"
+		case !c10Ident.MatchString(m.K):
+			tag = "quoted-key"
+		case rt != nil && (rt.Kind == SEnumS || rt.Kind == SEnumI) && mt.Kind == SRef:
+			tag = "enum-ref-member"
+		case rt != nil && (rt.Kind == SEnumS || rt.Kind == SEnumI):
+			tag = "enum-inline-member"
+		case rt != nil && rt.Kind == SConst:
+			tag = "const-member"
+		case rt != nil && (rt.Kind == SOneOfScalars || rt.Kind == SOneOfStructs):
+			tag = "union-member"
+		case rt != nil && rt.Kind == SStruct:
+			tag = "struct-member"
+		case rt != nil && (rt.Kind == SArray || rt.Kind == SDict):
+			tag = "collection-member"
+		}
+		tags[tag]++
+	}
+	if len(tags) == 0 {
+		return " via=whole-value"
+	}
+	return " via=" + strings.Join(labSortedKeys(tags), ",")
 }
 
 func c10Short(s string) string {
@@ -749,12 +807,14 @@ func c10Stream(args map[string]string, out *bufio.Writer) error {
 			for _, x := range byObj[n] {
 				gc, gg := c10Judge(x, g)
 				pc, pg := c10Judge(x, p)
-				common := fmt.Sprintf("format=%s pinned=%s kind=%s flags=%s path=%s.%s expected=%s", c.Format, tag, x.Kind, x.Flags, x.Object, x.Path, x.Want.json())
+				common := func(reply string) string {
+					return fmt.Sprintf("format=%s pinned=%s kind=%s%s flags=%s path=%s.%s expected=%s", c.Format, tag, x.Kind, c10Via(c.Defs, x, reply), x.Flags, x.Object, x.Path, x.Want.json())
+				}
 				if gc != "" && gc != "error" && c.GoOK && hasGo {
-					goFails = append(goFails, fmt.Sprintf("FAIL lang=go class=%s %s got=%s peer=%s", gc, common, gg, pg))
+					goFails = append(goFails, fmt.Sprintf("FAIL lang=go class=%s %s got=%s peer=%s", gc, common(g), gg, pg))
 				}
 				if pc != "" && pc != "error" && c.PyOK && hasPy {
-					pyFails = append(pyFails, fmt.Sprintf("FAIL lang=py class=%s %s got=%s peer=%s", pc, common, pg, gg))
+					pyFails = append(pyFails, fmt.Sprintf("FAIL lang=py class=%s %s got=%s peer=%s", pc, common(p), pg, gg))
 				}
 				if gc == "" && pc == "" && c.GoOK && c.PyOK {
 					stats["agree"]++
